@@ -102,8 +102,8 @@ class _Validator:
 def _signature(clause, e, prev, client="ip"):
     sig = _signature0(clause, e, prev)
     if sig and clause in _SERVER_CLAUSES:
-        if e.get("ev") == "probe" and e.get("tr") == "scion":
-            sig += " scion"             # a reply of the SCION listener to a foreign request
+        if (e.get("tr") if e.get("ev") == "probe" else client if e.get("ev") in ("rep", "norep") else "") == "scion":
+            sig += " scion"             # the SCION listener's answer (to a foreign request / to the SCION client)
     elif sig and client == "scion":
         sig += " scion-client"          # a clause about the client's pool / requests in a behaviour of the SCION client
     return sig
@@ -196,7 +196,7 @@ def run(ctx):
     design_f = bg.submit(design)
 
     # ---- 2. schedules from the specification
-    num = 200 if q else 1200
+    num = 200 if q else 1000
     g = ctx.tlc("NtsCookiesGen", "NtsCookies_gen.cfg" if q else "NtsCookies_gendeep.cfg", workers=1, timeout=600,
                 simulate="num=%d" % num, depth=400, tag="gen")
     beh = ctx.emitted(g["out"])
@@ -433,16 +433,21 @@ def run(ctx):
     sample = next((b for b in behs if any(e["ev"] == "loseresp" for e in b)), behs[0])
     ctx.cov.update(
         evaluations=exchanges, distinct_nontrivial=len(kinds),
-        rule="exchanges of the real IPClient/NTS-KE/NTP server through the recording proxy under TLC-generated "
+        rule="exchanges of the real IPClient or (about half of the behaviours) the real SCIONClient (same-AS empty path, "
+             "answered by the live SCION listener) with the NTS-KE/NTP servers through the recording proxy under TLC-generated "
              "schedules (random walks with loss bias 0..5, clock jumps of 12h..3d, earlier replies of the server "
-             "delivered to the waiting client before / instead of / after the genuine one, foreign requests with 1..12 "
-             "fields, unique identifiers of 32..320 bytes and cookies under any key the provider holds; all schedules of 3-4 exchanges) plus every pool level through NewRequestPacket/EncodePacket "
+             "delivered to the waiting client before / instead of / after the genuine one, for the SCION client also SCMP "
+             "messages (destination unreachable / echo reply / parameter problem) delivered while its request is pending, "
+             "foreign requests with 1..12 "
+             "fields, unique identifiers of 32..320 bytes and cookies under any key the provider holds; all schedules of 3-4 exchanges "
+             "(IP client) and of 2-3 exchanges with SCMP messages (SCION client)) plus every pool level through NewRequestPacket/EncodePacket "
              "and every reply size 1..12 x unique-identifier length {32,36,64,160,200,300,320} from the live IP listener and from the live SCION "
              "listener (SCION/UDP, empty path); distinct = distinct (pool level, live/function "
              "level, outcome, key of the cookie valid?, key id) resp. (listener, probe size, unique-id length, placeholder wire type, current "
              "key, reply malformed?)",
         traces_validated_against_impl=nval, events_validated=len(events), behaviours=len(behs),
         behaviours_with_violations=nviol_beh, event_counts=dict(cnt), pool_levels_live=levels_live,
+        pool_levels_scion_client=scion_levels,
         measured=dict(cookie_len=cfg["cookie_len"], max_packet_len=cfg["maxlen"]), predicted=pred,
         samples=[cfg] + sample[:12], exhaustive=False)
     ctx.assumptions += [
@@ -452,6 +457,12 @@ def run(ctx):
         "the network's memory is bounded (exhaustive runs: the reply of the previous 1-2 exchanges); the client's receive "
         "loop is handed at most two extra datagrams per call",
         "datagrams are classified by the harness' own RFC 8915 field walker and AES-SIV (miscreant) calls, not by net/nts",
+        "SCION client: its key exchange runs over TLS (not QUIC) against the same NTS-KE server; the proxy is the SCION "
+        "network of a single AS: it re-frames the NTS datagram of the client's SCION/UDP packet for the lane's SCION listener "
+        "(whose port differs from the advertised one) and the listener's answer for the client; SCMP messages are built by the "
+        "harness (unauthenticated, quoting the client's packet); no DRKey authentication (Auth.Enabled off)",
+        "MeasureClockOffsetSCION reports a failed measurement as a zero result: success = non-zero timestamp; after a failure "
+        "the client's pool is read only when every goroutine the call started has ended (runtime goroutine snapshot)",
         "loopback, one client per server; losses are those of the schedule (a silent server is asked again before "
         "'no reply' is recorded)",
         "small scope for the exhaustive TLC runs: clock horizon of 4-6 days in 12 h units, jumps from a fixed set",
